@@ -342,7 +342,7 @@ def loop_item(fa, loop, i=None):
     return fa.sym.ev(ast.Name(id=t.id, ctx=ast.Load()), fa.node_of(loop.body[0]).id)
 
 
-def spec(fa, text: str, at=None):
+def specv(fa, text: str, at=None):
     """A specification written in source syntax (over parameters / attributes / the function's own local names), normalised
     by the same evaluator as the code: Poly. `at` = CFG node id (default: function entry, where only parameters are bound)."""
     return fa.sym.ev(ast.parse(text, mode="eval").body, fa.cfg.entry.id if at is None else at)
@@ -419,3 +419,50 @@ def under(fa, facts_src, on_stmt=None, call_effects=False):
     fw.sym.decide = dec
     fw.run()
     return fw
+
+
+def ret_canons(fa) -> List[str]:
+    """Value ids of every `return <value>` of the function (temporaries expanded)."""
+    return [fa.sym.canon(r.value) for r in returns_in(fa) if r.value is not None]
+
+
+def returns_spec(fa, *texts) -> Tuple[bool, List[str]]:
+    """Every value return equals one of the specifications (source syntax, evaluated at the return itself by the same normaliser)."""
+    rets = [r for r in returns_in(fa) if r.value is not None]
+    got = [fa.sym.canon(r.value) for r in rets]
+    ok = bool(rets) and all(fa.sym.canon(r.value) in {specv(fa, t, fa.node_of(r).id).key() for t in texts} for r in rets)
+    return ok, got
+
+
+def deref(fa, e: ast.AST, at=None):
+    """(expression, node id): a plain local that has one reaching `name = expr` definition is replaced by that
+    expression (repeatedly), so that a rule looking at the shape of a value sees through temporaries."""
+    if at is None:
+        n = fa.cfg.node_of(e)
+        at = n.id if n is not None else None
+    for _ in range(12):
+        if not isinstance(e, ast.Name) or at is None:
+            break
+        defs = fa.rd.reaching(e.id, at)
+        if len(defs) == 1 and defs[0].kind == "assign" and defs[0].value is not None and isinstance(defs[0].ast, ast.Assign) and len(defs[0].ast.targets) == 1 \
+                and isinstance(defs[0].ast.targets[0], ast.Name):
+            e, at = defs[0].value, defs[0].node
+        else:
+            break
+    return e, at
+
+
+def attr_increments(fa, attr: str, by: int = 1) -> Tuple[List[ast.stmt], List[ast.stmt]]:
+    """(increments, other writes) of self.<attr> in the function: `self.a += by` and `self.a = self.a + by` are the same increment."""
+    incs, others = [], []
+    for s in all_stmts(fa):
+        if isinstance(s, ast.AugAssign) and isinstance(s.target, ast.Attribute) and s.target.attr == attr:
+            v = const_value(s.value)
+            (incs if isinstance(s.op, ast.Add) and v == by and not isinstance(v, bool) else others).append(s)
+        elif isinstance(s, ast.Assign):
+            for t in s.targets:
+                if isinstance(t, ast.Attribute) and t.attr == attr:
+                    at = fa.node_of(s).id
+                    cur = fa.sym.ev(ast.Attribute(value=t.value, attr=attr, ctx=ast.Load()), at)
+                    (incs if fa.sym.ev(s.value, at) == cur + Poly.const(by) else others).append(s)
+    return incs, others
